@@ -38,7 +38,24 @@ def check_table(chk, mod):
     try:
         table = const_eval(mod, node)
     except (NotConstant, Exception) as exc:
-        raise Unrecognised('C02.T', f'BINARY_REORDER cannot be constant-folded: {exc}', mod.rel)
+        # a table built by a module-level helper function: the defining expression is evaluated by the abstract interpreter (the value the import gives the name)
+        try:
+            from ..absint import Interp, reify, ADict, ASet
+            it = Interp(mod, 'C02.T')
+            it.repo = chk.repo
+            v = it.eval(ast.Name(id='BINARY_REORDER', ctx=ast.Load()), {})
+            if not isinstance(v, ADict):
+                raise Unrecognised('C02.T', 'BINARY_REORDER is not a mapping', mod.rel)
+            table = {}
+            for k, row in v.d.items():
+                if isinstance(row, ASet):
+                    table[k] = set(row.s)
+                elif isinstance(reify(row), (list, tuple, set, frozenset, dict)):
+                    table[k] = set(reify(row))
+                else:
+                    raise Unrecognised('C02.T', f'BINARY_REORDER[{k!r}] is not a collection of operators', mod.rel)
+        except Unrecognised as exc2:
+            raise Unrecognised('C02.T', f'BINARY_REORDER can be neither constant-folded ({exc}) nor evaluated ({exc2.what})', mod.rel)
     if not isinstance(table, dict):
         raise Unrecognised('C02.T', 'BINARY_REORDER is not a mapping', mod.rel)
     for op in RUNG:
